@@ -17,3 +17,53 @@ def gen_charwidths():
     body += 'def charWidthsOddKeys : Nat := %d\n\n' % len(odd)
     body += 'end Pybtex.Gen\n'
     return 'CharWidths.lean', body
+
+
+@tables.generator
+def gen_unicode_c12():
+    """Tables of the running interpreter that the Unicode-aware C12 model needs: str.isalnum as ranges, the
+    single-character part of str.upper as arithmetic runs (same shape as Gen/UnicodeCase.lean for str.lower), and the
+    code points whose upper-case form is not one character (the length-changing letters)."""
+    from tablegen.unicode import _ranges, _emit, _case_runs
+    body = 'namespace Pybtex.Gen\n\n'
+    body += _emit('alnumRangesC12', 'code points c with chr(c).isalnum(), as inclusive ranges', _ranges(str.isalnum))
+    runs, multi, n = _case_runs(str.upper)
+    body += ('/- `chr(c).upper()` of the running interpreter for the %d code points it changes into ONE other character, as %d runs\n'
+             '   (first, last, step, image of first).  Not in the table: code points whose upper-case form is not a single\n'
+             '   character (`upperMultiC12`). -/\n' % (n, len(runs)))
+    groups = [runs[i:i + 16] for i in range(0, len(runs), 16)]
+    for k, g in enumerate(groups):
+        body += 'def upperRunsC12Group%d : Nat × Nat × List (Nat × Nat × Nat × Nat) := (%d, %d, [%s])\n' % (
+            k, g[0][0], max(r[1] for r in g), ', '.join('(%d, %d, %d, %d)' % r for r in g))
+    body += ('/-- the runs in groups of 16, each with the interval (first, last) of code points its runs lie in -/\n'
+             'def upperRunsC12 : List (Nat × Nat × List (Nat × Nat × Nat × Nat)) :=\n  [%s]\n\n' % ', '.join('upperRunsC12Group%d' % k for k in range(len(groups))))
+    # the grouped first-match lookup of Model/UniCase.lean (caseLookupG) must reproduce the interpreter on every code point
+    bounds = [(g[0][0], max(r[1] for r in g)) for g in groups]
+
+    def look(n):
+        for (lo, hi), g in zip(bounds, groups):
+            if lo <= n <= hi:
+                for (a, b, st, t) in g:
+                    if a <= n <= b and (n - a) % st == 0:
+                        return t + (n - a)
+                return None
+        return None
+    inside = set()
+    for lo, hi in bounds:
+        inside.update(range(lo, hi + 1))
+    if any(cp not in inside for cp, _ in ((r[0], 0) for g in groups for r in g)):
+        raise ValueError('upper-case run table: a run starts outside its group interval')
+    changed = 0
+    for cp in sorted(inside):
+        if 0xD800 <= cp <= 0xDFFF:
+            continue
+        u = chr(cp).upper()
+        want = ord(u) if len(u) == 1 and u != chr(cp) else None
+        changed += want is not None
+        if look(cp) != want:
+            raise ValueError('upper-case run table does not reproduce chr(%d).upper()' % cp)
+    if changed != n:
+        raise ValueError('upper-case run table: %d of %d single-character mappings lie inside the group intervals' % (changed, n))
+    body += '/-- code points whose `.upper()` is not one character -/\ndef upperMultiC12 : List Nat := [%s]\n\n' % ', '.join(map(str, multi))
+    body += 'end Pybtex.Gen\n'
+    return 'UnicodeC12.lean', body
